@@ -688,6 +688,11 @@ with SqlImpl.impl_store.impl_manager as impl:
         def _floordiv(lhs, rhs):
             return lhs // rhs
 
+    @impl(ops.neg)
+    def _neg(x):
+        # `-` directly in front of a negative literal would start a comment (`--5`)
+        return -sqa.sql.elements.Grouping(x)
+
     @impl(ops.pow)
     def _pow(lhs, rhs):
         return_type = sqa.Double()
